@@ -161,7 +161,9 @@ MUTANTS = [
     m("C10-identity-order-stays-proved-silent", "C10", "", EIGS, "eig_vals = xnp.ones(shape=(A.shape[0], ), dtype=A.dtype, device=A.device)\n    eig_vecs = A.to_dense()", "eig_vals = xnp.ones(shape=(A.shape[-1], ), dtype=A.dtype, device=A.device)\n    eig_vecs = A.to_dense()", silent=True),
     m("C10-slice-unpaired", "C10", "slice-pairing@eig(LinearOperator,int,str,Eigh)", EIGS, "return eig_vals[eig_slice], Stiefel(lazify(eig_vecs[:, eig_slice]))", "return eig_vals[eig_slice], Stiefel(lazify(eig_vecs[eig_slice, :]))"),
     m("C10-perm-rows", "C10", "paired-permutation@eig(Diagonal,int,str,Algorithm):sorted_ind", EIGS, "eig_vecs = I_like(A).to_dense()[:, sorted_ind]", "eig_vecs = I_like(A).to_dense()[sorted_ind, :]"),
-    m("C10-perm-unpaired", "C10", "paired-permutation@lanczos_eigs:idx", LAN, "V = Q @ lazify(eigvectors[:, idx])", "V = Q @ lazify(eigvectors)"),
+    # the argsort of eigh's (ascending) values is the identity: leaving the vectors un-permuted changes nothing -- must stay silent
+    m("C10-silent-identity-permutation-unpaired", "C10", "", LAN, "V = Q @ lazify(eigvectors[:, idx])", "V = Q @ lazify(eigvectors)", silent=True),
+    m("C10-magnitude-permutation-unpaired", "C10", "paired-permutation@lanczos_eigs:idx", LAN, "    idx = xnp.argsort(eigvals, axis=-1)\n    V = Q @ lazify(eigvectors[:, idx])", "    idx = xnp.argsort(xnp.abs(eigvals), axis=-1)\n    V = Q @ lazify(eigvectors)"),
     m("C10-eigmin-lm", "C10", "eig-wrapper@eigmin", EIGS, "es, vs = eig(A, k=1, which='SM', alg=alg)", "es, vs = eig(A, k=1, which='LM', alg=alg)"),
     m("C10-power-contract", "C10", "power-iteration@eig(LinearOperator,int,str,PowerIteration)", EIGS, "    assert k == 1 and which == 'LM', \"PowerIteration only valid for k=1 and which='LM'\"\n", ""),
     m("C10-fix-makes-proved-silent", "C10", "", EIGS, "    sorted_ind = xnp.argsort(A.diag)\n    eig_vals = A.diag[sorted_ind]", "    sorted_ind = xnp.argsort(xnp.abs(A.diag))\n    eig_vals = A.diag[sorted_ind]", silent=True),
@@ -209,7 +211,9 @@ MUTANTS = [
     m("C14-offdiag-not-norm", "C14", "nonneg-offdiagonal@lanczos_fact:subdiag", LAN, "subdiag = xnp.update_array(subdiag, xnp.norm(V[..., i + 1], axis=-1), ..., i)", "subdiag = xnp.update_array(subdiag, xnp.sum(V[..., i + 1] * V[..., i], axis=-1), ..., i)"),
     m("C14-start-not-normalised", "C14", "first-column@init_lanczos", LAN, "    rhs = rhs / norm\n    V = xnp.update_array(V, xnp.copy(rhs.T), ..., 1)\n    return V, diag, subdiag, i", "    V = xnp.update_array(V, xnp.copy(rhs.T), ..., 1)\n    return V, diag, subdiag, i"),
     m("C14-gram-conj-side", "C14", "projection@do_gram", LAN, "aux = xnp.sum(xnp.conj(vec) * xnp.expand(new_vec, -1), axis=-2, keepdims=True)", "aux = xnp.sum(vec * xnp.expand(xnp.conj(new_vec), -1), axis=-2, keepdims=True)"),
-    m("C14-ritz-unpaired", "C14", "ritz-pairs@lanczos_eigs", LAN, "    V = Q @ lazify(eigvectors[:, idx])\n    eigvals = eigvals[..., idx]", "    V = Q @ lazify(eigvectors)\n    eigvals = eigvals[..., idx]"),
+    m("C14-silent-ritz-identity-permutation-unpaired", "C14", "", LAN, "    V = Q @ lazify(eigvectors[:, idx])\n    eigvals = eigvals[..., idx]", "    V = Q @ lazify(eigvectors)\n    eigvals = eigvals[..., idx]", silent=True),
+    m("C14-ritz-descending", "C14", "ritz-pairs@lanczos_eigs", LAN, "    idx = xnp.argsort(eigvals, axis=-1)\n    V = Q @ lazify(eigvectors[:, idx])", "    idx = xnp.argsort(-eigvals, axis=-1)\n    V = Q @ lazify(eigvectors[:, idx])"),
+    m("C14-ritz-magnitude-unpaired", "C14", "ritz-pairs@lanczos_eigs", LAN, "    idx = xnp.argsort(eigvals, axis=-1)\n    V = Q @ lazify(eigvectors[:, idx])", "    idx = xnp.argsort(xnp.abs(eigvals), axis=-1)\n    V = Q @ lazify(eigvectors)"),
     m("C14-trim-sizes", "C14", "trimming@lanczos:trim", LAN, "alpha, beta, Q = alpha[..., :iters - 1], beta[..., :iters], Q[..., :iters]", "alpha, beta, Q = alpha[..., :iters], beta[..., :iters], Q[..., :iters]"),
     # ---------------------------------------------------------------- C15
     m("C15-no-clip", "C15", "loop-cap@arnoldi_fact:clip", ARN, "    xnp = A.xnp\n    max_iters = min(max_iters, A.shape[0])\n\n    def cond_fun(state):\n        _, H, idx, norm = state", "    xnp = A.xnp\n\n    def cond_fun(state):\n        _, H, idx, norm = state"),
@@ -336,6 +340,46 @@ MUTANTS = [
       "        z = xnp.randn(A.shape[0], bs, dtype=A.dtype, key=key, device=A.device)\n        if rand == 'rademacher':\n            z = xnp.sign(z)\n        probes = z\n        z2 = xnp.roll(probes, -k, 0)", silent=True),
     m("C01-operand-cast-to-operator-dtype", "C01", "operand-cast@Dense._matmat", OPS, "        return self.xnp.cast(self.A, dtype) @ self.xnp.cast(X, dtype)", "        return self.xnp.cast(self.A, dtype) @ self.xnp.cast(X, self.dtype)"),
     m("C19-sliced-densifies-parent", "C19", "matrix-free-product@Sliced.to_dense:parent", OPS, "    def __str__(self):\n        has_length = hasattr(self.slices[0], '__len__')", "    def to_dense(self):\n        return self.A.to_dense()[self.slices[0]][:, self.slices[1]]\n\n    def __str__(self):\n        has_length = hasattr(self.slices[0], '__len__')"),
+    # ---------------------------------------------------------------- round 7
+    m("C05-gram-arity-dropped", "C05", "annot-rule@get_annotations(Product)", ANN, "    if issubclass(type(A), inferred_self_adjoint_types) and are_the_same(A.Ms[0], A.Ms[1]):", "    if len(A.Ms) > 1 and are_the_same(A.Ms[0], A.Ms[1]):"),
+    m("C05-silent-gram-arity-explicit", "C05", "", ANN, "    if issubclass(type(A), inferred_self_adjoint_types) and are_the_same(A.Ms[0], A.Ms[1]):",
+      "    if len(A.Ms) == 2 and issubclass(type(A), inferred_self_adjoint_types) and are_the_same(A.Ms[0], A.Ms[1]):", silent=True),
+    m("C05-sliced-any-position", "C05", "annot-rule@get_annotations(Sliced)", ANN, "    elif (A.slices[0] == A.slices[1]).all():", "    elif (A.slices[0] == A.slices[1]).any():"),
+    m("C05-silent-sliced-no-difference", "C05", "", ANN, "    elif (A.slices[0] == A.slices[1]).all():", "    elif not (A.slices[0] != A.slices[1]).any():", silent=True),
+    m("C05-gram-on-longer-side", "C05", "gram-side@svd(LinearOperator,int,str,Lanczos)", SVD, "    if A.shape[1] <= A.shape[0]:\n        eig_vals, V, _ = lanczos_eigs(A.H @ A, **alg.__dict__)",
+      "    if A.shape[0] <= A.shape[1]:\n        eig_vals, V, _ = lanczos_eigs(A.H @ A, **alg.__dict__)"),
+    m("C05-silent-gram-side-mirrored-test", "C05", "", SVD, "    if A.shape[1] <= A.shape[0]:\n        eig_vals, V, _ = lanczos_eigs(A.H @ A, **alg.__dict__)",
+      "    if A.shape[0] >= A.shape[1]:\n        eig_vals, V, _ = lanczos_eigs(A.H @ A, **alg.__dict__)", silent=True),
+    m("C03-shape-check-after-operator-dispatch", "C03", "shape-validation@LinearOperator.__matmul__:operator-operand", BASE,
+      "        assert X.shape[0] == self.shape[-1], f\"dimension mismatch {self.shape} vs {X.shape}\"\n        if isinstance(X, LinearOperator):\n            return cola.fns.dot(self, X)\n        elif len(X.shape) == 1:",
+      "        if isinstance(X, LinearOperator):\n            return cola.fns.dot(self, X)\n        assert X.shape[0] == self.shape[-1], f\"dimension mismatch {self.shape} vs {X.shape}\"\n        if len(X.shape) == 1:"),
+    m("C03-silent-shape-check-in-both-branches", "C03", "", BASE,
+      "        assert X.shape[0] == self.shape[-1], f\"dimension mismatch {self.shape} vs {X.shape}\"\n        if isinstance(X, LinearOperator):\n            return cola.fns.dot(self, X)\n        elif len(X.shape) == 1:",
+      "        if isinstance(X, LinearOperator):\n            assert X.shape[0] == self.shape[-1], f\"dimension mismatch {self.shape} vs {X.shape}\"\n            return cola.fns.dot(self, X)\n        assert X.shape[0] == self.shape[-1], f\"dimension mismatch {self.shape} vs {X.shape}\"\n        if len(X.shape) == 1:", silent=True),
+    m("C19-probe-from-long-side", "C19", "probe-side@LinearOperator.to_dense", BASE, "        if 8 * self.shape[-2] < self.shape[-1]:", "        if 8 * self.shape[-1] < self.shape[-2]:"),
+    m("C19-silent-probe-branches-swapped", "C19", "", BASE,
+      "        if 8 * self.shape[-2] < self.shape[-1]:\n            return self.xnp.eye(self.shape[-2], self.shape[-2], dtype=self.dtype, device=self.device) @ self\n        else:\n            return self @ self.xnp.eye(self.shape[-1], self.shape[-1], dtype=self.dtype, device=self.device)",
+      "        if 8 * self.shape[-2] >= self.shape[-1]:\n            return self @ self.xnp.eye(self.shape[-1], self.shape[-1], dtype=self.dtype, device=self.device)\n        else:\n            return self.xnp.eye(self.shape[-2], self.shape[-2], dtype=self.dtype, device=self.device) @ self", silent=True),
+    m("C17-cap-one-block-too-many", "C17", "loop-cap@hutchinson_diag_estimate:loop", DEST, "        return (state[0] == 0) | ((state[0] < max_iters) & (err(state) > tol))", "        return (state[0] == 0) | ((state[0] <= max_iters) & (err(state) > tol))"),
+    m("C14-stop-when-one-column-done", "C14", "batch-quantifier@lanczos_fact:cond", LAN, "        flag = is_not_max & xnp.any(is_large)", "        flag = is_not_max & xnp.all(is_large)"),
+    m("C14-silent-quantifier-demorgan", "C14", "", LAN, "        flag = is_not_max & xnp.any(is_large)", "        flag = is_not_max & ~xnp.all(~is_large)", silent=True),
+    m("C15-stop-when-one-column-done", "C15", "batch-quantifier@arnoldi_fact:cond", ARN, "        is_large = (norm > tol * H[:, 1, 0].real) | (idx <= 0)\n        return is_not_max & xnp.any(is_large)",
+      "        is_large = (norm > tol * H[:, 1, 0].real) | (idx <= 0)\n        return is_not_max & xnp.all(is_large)"),
+    m("C14-recurrence-in-place", "C14", "basis-aliasing@lanczos_fact:body", LAN, "        new_vec = new_vec - aux\n", "        new_vec -= aux\n"),
+    m("C14-silent-recurrence-in-place-on-a-copy", "C14", "", LAN, "        new_vec = new_vec - aux\n", "        new_vec = xnp.copy(new_vec)\n        new_vec -= aux\n", silent=True),
+    m("C15-sweep-in-place", "C15", "basis-aliasing@arnoldi_fact:body", ARN, "            new_vec = new_vec - h_vec[..., [jdx]] * Q[..., jdx]", "            new_vec -= h_vec[..., [jdx]] * Q[..., jdx]"),
+    m("C15-buffers-for-the-unclipped-cap", "C15", "loop-cap@arnoldi:alloc-clip", ARN, "    max_iters = min(max_iters, A.shape[-1])\n    if start_vector is None:\n        key = xnp.PRNGKey(42) if key is None else key\n        start_vector = xnp.randn(A.shape[-1]",
+      "    if start_vector is None:\n        key = xnp.PRNGKey(42) if key is None else key\n        start_vector = xnp.randn(A.shape[-1]"),
+    m("C15-silent-clip-arguments-swapped", "C15", "", ARN, "    max_iters = min(max_iters, A.shape[-1])\n    if start_vector is None:\n        key = xnp.PRNGKey(42) if key is None else key\n        start_vector = xnp.randn(A.shape[-1]",
+      "    max_iters = min(A.shape[-1], max_iters)\n    if start_vector is None:\n        key = xnp.PRNGKey(42) if key is None else key\n        start_vector = xnp.randn(A.shape[-1]", silent=True),
+    m("C18-operator-attribute-classified-by-content", "C18", "leaf-classification@LinearOperator.__setattr__", BASE, "    return is_array(obj) or isinstance(obj, LinearOperator)", "    return is_array(obj)"),
+    m("C18-silent-classification-disjuncts-swapped", "C18", "", BASE, "    return is_array(obj) or isinstance(obj, LinearOperator)", "    return isinstance(obj, LinearOperator) or is_array(obj)", silent=True),
+    m("C01-blocks-applied-transposed", "C01", "block-action@BlockDiag._matmat", OPS, "            elems = M @ v[i:i_end].T.reshape(k * multiplicity, M.shape[-1]).T\n            y.append(elems.T.reshape(k, multiplicity * M.shape[0]).T)",
+      "            elems = v[i:i_end].T.reshape(k * multiplicity, M.shape[-1]) @ M\n            y.append(elems.reshape(k, multiplicity * M.shape[0]).T)"),
+    m("C01-blocks-transpose-of-a-square-block", "C01", "block-action@BlockDiag._matmat", OPS, "            elems = M @ v[i:i_end].T.reshape(k * multiplicity, M.shape[-1]).T", "            elems = M.T @ v[i:i_end].T.reshape(k * multiplicity, M.shape[-1]).T"),
+    m("C01-silent-blocks-from-the-right-with-transposes", "C01", "", OPS, "            elems = M @ v[i:i_end].T.reshape(k * multiplicity, M.shape[-1]).T", "            elems = (v[i:i_end].T.reshape(k * multiplicity, M.shape[-1]) @ M.T).T", silent=True),
+    m("C12-zero-threshold-in-the-normal-range", "C12", "zero-threshold@", CG, "_small_value = 1e-40", "_small_value = 1e-30"),
+    m("C12-silent-zero-threshold-still-denormal", "C12", "", CG, "_small_value = 1e-40", "_small_value = 1e-39", silent=True),
 ]
 
 
